@@ -280,6 +280,9 @@ func (ex *Exec) scanCall(c *ssa.CallCommon, ms *modSet, isGo bool) {
 		full := fn.String()
 		switch full {
 		case "(*sync.Mutex).Lock", "(*sync.Mutex).Unlock":
+			if full == "(*sync.Mutex).Lock" {
+				ms.cnt["lock"] = true
+			}
 			ms.arr["closed"] = true
 			ms.arr["ctxdone"] = true
 			ms.arr["chlen.*"] = true
